@@ -770,3 +770,31 @@ func helperParamArgIn(prm *ssa.Parameter, top *ssa.Function) ssa.Value {
 	}
 	return nil
 }
+
+// helperParamArgIn: the argument bound to parameter prm of a new helper at its call
+// site(s) inside top (the function a rule looks at); nil unless there is exactly one.
+func helperParamArgIn(prm *ssa.Parameter, top *ssa.Function) ssa.Value {
+	fn := prm.Parent()
+	info := helperOf(fn)
+	if info == nil {
+		return nil
+	}
+	var out []ssa.Value
+	for k, x := range fn.Params {
+		if x != prm {
+			continue
+		}
+		for _, s := range info.sites {
+			if s.Parent() != top && TopFunc(s.Parent()) != top {
+				continue
+			}
+			if args := s.Common().Args; k < len(args) {
+				out = append(out, args[k])
+			}
+		}
+	}
+	if len(out) == 1 {
+		return out[0]
+	}
+	return nil
+}
